@@ -181,10 +181,19 @@ func c08Batch(c *ctx, nd int, id string) zh.Batch {
 	if c.R.Chance(4) {
 		absent = []string{"body", "tag"}[c.R.Intn(2)]
 	}
+	// or the segment knows a field (every document carries it, stored) but no document has a term in it
+	tokenless := ""
+	if absent == "" && c.R.Chance(5) {
+		tokenless = []string{"body", "tag"}[c.R.Intn(2)]
+	}
 	for d := 0; d < nd; d++ {
 		doc := zh.Doc{Fields: []zh.Field{zh.IDField(fmt.Sprintf("%s%02d", id, d))}}
 		for _, fn := range []string{"body", "tag"} {
 			if fn == absent || c.R.Chance(5) {
+				continue
+			}
+			if fn == tokenless {
+				doc.Fields = append(doc.Fields, zh.Field{Name: fn, Stored: true, Typ: 't', Val: []byte("v")})
 				continue
 			}
 			f := zh.Field{Name: fn, Len: 1}
@@ -260,6 +269,10 @@ func checkC08(c *ctx) {
 	c.Rule = "dictionaries over terms from {a,b,c}* (prefix families, near neighbours, the empty term) plus the generic vocabulary, on built / persisted+opened / merged / re-merged segments whose merges mix single-hit and general entries; automata {match-all, never, exact, prefix, Levenshtein 1-2, random regular expressions over a subset (literal . concatenation | *)} x key ranges (either bound absent; bounds equal to / between / below / above existing terms; start < end); observed: the (term, count) sequence of AutomatonIterator, Contains, Cardinality, empty result for fields without dictionary; expected: extracted DictionaryIterator model (reused scratch list) run over the dictionary the extracted parser reads from the segment's own bytes, with extracted Gallina matchers; plus one segment of 131136 documents (offsets beyond 2 MiB, a bitmap over three containers and larger than 16 KiB; expected counts by construction); non-trivial = dictionary with >= 3 terms and a non-trivial automaton or range"
 	c.Assumptions = append(c.Assumptions, "vellum's FST.Search is abstracted as an ordered filter by (automaton accepts, start <= key < end); the Gallina matchers are the specification of the automata built on the Go side",
 		"Levenshtein / regexp automata are exercised on ASCII terms (vellum's automata work on UTF-8 code points, the model on bytes)")
+	if bad := boundaryChain(c); bad != "" {
+		c.Violation("C08 dictionary counts along a merge chain crossing a chunk-size boundary\n"+bad, false)
+		return
+	}
 	if bad := largeDictionary(c); bad != "" {
 		c.Violation("C08 dictionary enumeration on a large segment\n"+bad, false)
 		return
@@ -473,5 +486,64 @@ func largeDictionary(c *ctx) string {
 			}
 		}
 	}
+	return ""
+}
+
+// boundaryChain: deletions take a term from 1030 to about 1000 postings in a merge (chunk mode 1026),
+// and the output is merged once more on its own (identical field lists: the byte-copy path); the
+// dictionary of every generation must report the true counts.
+func boundaryChain(c *ctx) string {
+	b := zh.GenBoundaryBatch(c.R, 1100, []int{1030, 5, 3}, true)
+	e1, err := newBuilt(c, b, 1026, false)
+	if err != nil {
+		return "build failed: " + err.Error()
+	}
+	defer e1.close()
+	var drops []uint64
+	for d := 0; d < len(b) && len(drops) < 30; d++ {
+		for _, f := range b[d].Fields {
+			if f.Name == "tag" && len(f.Toks) > 0 && f.Toks[0].Term == "t0" {
+				drops = append(drops, uint64(d))
+				break
+			}
+		}
+	}
+	cur := e1
+	curDrops := drops
+	for gen := 1; gen <= 2; gen++ {
+		mc := &mergeCase{ins: []*segEnt{cur}, drops: [][]uint64{curDrops}, nilBM: []bool{curDrops == nil}, mode: 1026}
+		spec, _ := specMerge(c, mc)
+		r := runMerge(c, mc)
+		if r.err != nil || r.seg == nil {
+			return fmt.Sprintf("merge generation %d failed: %v", gen, r.err)
+		}
+		defer r.seg.Close()
+		var terms []string
+		want := map[string]uint64{}
+		for _, fd := range spec.L[pDicts].L {
+			if string(fd.L[0].B) == "tag" {
+				for _, te := range fd.L[1].L {
+					terms = append(terms, string(te.L[0].B))
+					want[string(te.L[0].B)] = uint64(len(te.L[1].L))
+				}
+			}
+		}
+		obs, card, bad := dictObserve(r.seg, "tag", nil, nil, nil, terms)
+		if bad != "" {
+			return fmt.Sprintf("generation %d (1100 documents, term t0 with 1030 postings, 30 of its documents deleted in the first merge): %s", gen, bad)
+		}
+		if card != len(terms) || len(obs.L) != len(terms) {
+			return fmt.Sprintf("generation %d: the dictionary of tag lists %d terms (Cardinality %d), the specification has %d", gen, len(obs.L), card, len(terms))
+		}
+		for _, e := range obs.L {
+			if t := string(e.L[0].B); e.L[1].N != want[t] {
+				return fmt.Sprintf("generation %d of the merge chain: term %q is reported with count %d, it has %d postings (1100 documents, 30 deletions in the first merge took it from 1030 postings across the 1024 boundary)", gen, t, e.L[1].N, want[t])
+			}
+		}
+		c.Count("boundary_chain_generations")
+		cur = &segEnt{seg: r.seg, spec: spec, n: spec.L[pNDocs].N, prov: "merged", depth: gen}
+		curDrops = nil
+	}
+	c.Case("boundary-chain", true)
 	return ""
 }
